@@ -4,7 +4,7 @@ import itertools
 
 from ..ir import E, AnalysisError, ModuleIR, Obj, literals
 from .. import q
-from ..fsm import reaches, assignments, holds, guard_atoms, consistent
+from ..fsm import reaches, assignments, holds, guard_atoms, consistent, find_path
 
 TITLE = 'SPI register transactions'
 FLOOR = 100
@@ -296,6 +296,18 @@ def check_command_interface(ctx, csz, wsz):
 
     def on_data_path(dst):
         return dst == data_st or (dst != cmd_st and reaches(fsm, dst, data_st, avoid={cmd_st}))
+
+    # ---- one transaction per chip-select assertion: once the data word is complete, the command state can be reached
+    # again only through an edge that requires chip select to be released (otherwise further clocks of an over-long
+    # transaction are parsed as a second command and write a second register)
+    done_edges = [e for e in fsm.out_edges(data_st) if e.dst != data_st and any(q.atoms(e) >= q.atoms(w_) - {('dummy', True)} for w_ in wc_raise)]
+    ctx.need(done_edges, 'the edge that leaves the data state when the word is complete')
+    for i, e in enumerate(done_edges):
+        p_ = None if e.dst == cmd_st and (CS, False) in q.atoms(e) else \
+            ([e] if e.dst == cmd_st else find_path(fsm, e.dst, cmd_st, edge_ok=lambda x: (CS, False) not in q.atoms(x)))
+        ctx.ob('C51.one-transaction-per-select', K + 'data-complete#%d.needs-deselect[%s]' % (i, tag), p_ is None, e.loc,
+               'after a complete data word the command state must not be reachable while chip select stays asserted; '
+               'path without a ~cs edge: %s' % [(x.src, x.dst) for x in (p_ or [])])
 
     # ---- (a) framing of both phases
     proceed = [e for e in fsm.out_edges(cmd_st) if isinstance(e.dst, str) and on_data_path(e.dst)]
